@@ -1236,7 +1236,15 @@ impl ManageConnection for ServerPool {
 
     /// Synchronously determine if the connection is no longer usable, if possible.
     fn has_broken(&self, conn: &mut Self::Connection) -> bool {
-        conn.is_bad()
+        if conn.is_bad() {
+            return true;
+        }
+
+        // Every normal release goes through checkin_cleanup() first. A connection that comes
+        // back unclean was dropped by a client task that ended early (protocol error, panic,
+        // write failure) and could not be cleaned up: close it instead of reusing it.
+        // Mirrors have a connection of their own that nobody else gets.
+        self.address.role != Role::Mirror && conn.is_unclean()
     }
 }
 
